@@ -409,6 +409,12 @@ printf("\n");
               int high_bits = operands[r].value & 0xf800;
               int address = asm_context->address + 2;
 
+              if (operands[r].value < 0 || operands[r].value > 0xffff)
+              {
+                print_error_range(asm_context, "Address", 0, 0xffff);
+                return -1;
+              }
+
               if (asm_context->pass == 1)
               {
                 high_bits = address & 0xf800;
